@@ -207,6 +207,13 @@ def build_tissue(spec, frame=0):
         return (X, Y)
 
     jpos = {v: place(v) for v in used_v}
+    jump = mot.get("jump")
+    if jump and frame == jump.get("frame", 1) and used_v:
+        # one junction jumps farther than the tracker's search radius: it has no counterpart in the neighbours
+        # an inner junction (one of the three closest to the centre), so that the tissue's extent is unchanged
+        inner_first = sorted(used_v, key=lambda v: float(np.hypot(*(vv[v] - centre))))
+        vj = inner_first[jump.get("index", 0) % min(3, len(inner_first))]
+        jpos[vj] = (jpos[vj][0] + jump["d"][0] * scale, jpos[vj][1] + jump["d"][1] * scale)
 
     # ridges
     ridges = {}
@@ -310,11 +317,12 @@ def build_tissue(spec, frame=0):
             return {k: perm[i] for i, k in enumerate(keys)}
         # gaps (optionally starting at a huge number)
         out = {}
-        cur = r.randint(0, 5) if mode != "huge" else 1_000_000 + r.randint(0, 50)
+        cur = r.randint(0, 5) if mode not in ("huge", "huge64") else \
+            (1_000_000 + r.randint(0, 50) if mode == "huge" else 2 ** 60 + r.randint(0, 50))
         order = keys[:]
         r.shuffle(order)
         for k in order:
-            cur += r.randint(1, 4)
+            cur += r.randint(1, 4) if mode != "huge64" else r.randint(1, 4) * 1_000_003   # 64-bit keys: not exact as float64
             out[k] = cur
         return out
 
@@ -487,7 +495,7 @@ def random_spec(rng, *, max_side=6, kmax=40, for_solver=False, frames=1, min_rid
             else:
                 spec["pts"] = {"mode": "mixed", "kmin": max(5, spec["pts"].get("kmin", 0)), "kmax": max(7, spec["pts"]["kmax"])}
         spec["orient"] = rng.choice(["ccw", "cw", "mixed"])
-        spec["ids"] = rng.choice(["contig0", "contig1", "gaps", "shuffle", "gaps", "huge"])
+        spec["ids"] = rng.choice(["contig0", "contig1", "gaps", "shuffle", "gaps", "huge", "contig0", "shuffle", "huge64"])
         if frames > 1:
             spec["motion"] = {"amp": round(rng.choice([0.0, 0.004, 0.01, 0.01, 0.06]), 4),
                               "drift": [round(rng.uniform(-0.01, 0.01), 4), round(rng.uniform(-0.01, 0.01), 4)],
